@@ -48,6 +48,8 @@ func (c10) Classes() []sim.Class {
 			// sequential: hundreds of names (map and list resizing); files released exactly once on close
 			sim.Class{Name: "registry-large", Engine: e, Quick: 40, Thorough: 1500, Instrumented: true, RunTimeoutSec: 120},
 			sim.Class{Name: "resources", Engine: e, Quick: 300, Thorough: 12000, Instrumented: true, RunTimeoutSec: 120},
+			// several calls in flight on one module when close-on-context-done closes it: baton-scheduled
+			sim.Class{Name: "async-close-concurrent", Engine: e, Quick: 400, Thorough: 16000, Instrumented: true, RunTimeoutSec: 120, DeathIsViolation: true},
 		)
 	}
 	return cs
@@ -94,6 +96,7 @@ type input struct {
 	Mod  int // module id for close/isClosed
 	Bin  int
 	Code uint32
+	Note string // shown in histories only
 }
 
 type output struct {
@@ -260,7 +263,7 @@ var model = porcupine.Model{
 	Equal: func(a, b interface{}) bool { return a.(regState).key() == b.(regState).key() },
 	DescribeOperation: func(in, out interface{}) string {
 		i, o := in.(input), out.(output)
-		return fmt.Sprintf("%s(%q,m%d,bin%d)->ok=%v m%d closed=%v %s", opNames[i.Kind], i.Name, i.Mod, i.Bin, o.OK, o.Mod, o.Closed, o.Err)
+		return fmt.Sprintf("%s(%q,m%d,bin%d)->ok=%v m%d closed=%v %s%s", opNames[i.Kind], i.Name, i.Mod, i.Bin, o.OK, o.Mod, o.Closed, o.Err, i.Note)
 	},
 }
 
@@ -651,6 +654,8 @@ func (c10) Run(t *tape.Tape, cfg sim.Config) (res sim.Result) {
 		return registryLarge(t, cfg)
 	case "resources":
 		return resourcesRelease(t, cfg)
+	case "async-close-concurrent":
+		return asyncCloseConcurrent(t, cfg)
 	}
 	ctx := context.Background()
 	var rc wazero.RuntimeConfig
@@ -871,8 +876,9 @@ func (c10) Run(t *tape.Tape, cfg sim.Config) (res sim.Result) {
 						if err == nil {
 							cs.mods = append(cs.mods, mod)
 						}
+						in.Note = " [registered; its start function then failed in a host function, next line]"
 						hist = append(hist, histOp{client: c, in: in, out: output{OK: true, Mod: id}, call: call, ret: tr.mid})
-						in = input{Kind: opClose, Mod: id}
+						in = input{Kind: opClose, Mod: id, Note: " [InstantiateModule closes the instance whose start function failed]"}
 						out = output{OK: true}
 						call = tr.mid2
 						startFailures++
